@@ -365,6 +365,14 @@ def r14_4(ctx, prog, crate):
         srcs = b.prov.op_src(c.args[0])
         ok = ok or any(s.kind == "call" and "into_iter" in s.a for s in srcs)
     ctx.check(ok, "R14.4", ["run_tree_list", "argument-loop-over-args"], "the inner loop does not iterate an args collection", b.where(il["header"]))
+    its = [c for c in b.live_calls() if "into_iter" in c.callee and any(s.kind == "call" and s.b == c.bb for n_ in nxt for s in b.prov.op_src(n_.args[0]))]
+    okl, shown = (False, "?")
+    for c in its:
+        okl, shown = _leaf_args_of_loop_item(b, c.args[0])
+        if okl:
+            break
+    ctx.check(okl, "R14.4", ["run_tree_list", "arguments-are-the-leafs-filtered-list"],
+              "the argument lines are printed from %s, expected the `args` of the Leaf being visited (already pruned by the filters)" % shown, b.where(il["header"]))
     # exclusivity: plain print, argument loop and recursion are on three different arms
     arms = leaf_arm(prog, b, crate)
     if ctx.check(len(arms) >= 1, "R14.4", ["run_tree_list", "match-on-node-kind"], "no match on the node kind", b.where(0)):
@@ -385,6 +393,25 @@ def r14_4(ctx, prog, crate):
               "plain line is printed inside a nested loop", plain[0].line())
 
 
+def _leaf_args_of_loop_item(b, operand):
+    """The collection whose elements are printed is the `args` field of the Leaf that the per-child loop is visiting
+    (the list the filters have already pruned), not a list fetched again from the entry."""
+    from lib.symexpr import Sym, show
+    e = Sym(b, site_args=True).op(operand)
+    text = repr(e)
+    found = []
+
+    def walk(x):
+        if isinstance(x, tuple):
+            if len(x) == 4 and x[0] == "payload" and x[1] == "Leaf" and x[2] == "args":
+                found.append(x[3])
+            for y in x:
+                walk(y)
+    walk(e)
+    item_ok = any(f[0] == "payload" and f[1] == "Some" and f[3][0] == "site" and f[3][1].endswith("::next") for f in found)
+    return item_ok and "arg_names" not in text, show(e)
+
+
 def _r14_4_for_each(ctx, prog, crate, b, plain, rec, fe_site):
     """R14.4 when the argument lines come from `args.iter().for_each(|arg| println!(..))`."""
     fe, x, xp = fe_site
@@ -402,6 +429,9 @@ def _r14_4_for_each(ctx, prog, crate, b, plain, rec, fe_site):
     srcs = b.prov.op_src(fe.args[0])
     ctx.check(any(s.kind == "call" and ("into_iter" in s.a or s.a.endswith("::iter")) for s in srcs), "R14.4", ["run_tree_list", "argument-loop-over-args"],
               "for_each does not iterate an args collection", fe.line())
+    okl, shown = _leaf_args_of_loop_item(b, fe.args[0])
+    ctx.check(okl, "R14.4", ["run_tree_list", "arguments-are-the-leafs-filtered-list"],
+              "the argument lines are printed from %s, expected the `args` of the Leaf being visited (already pruned by the filters)" % shown, fe.line())
     arms = leaf_arm(prog, b, crate)
     if ctx.check(len(arms) >= 1, "R14.4", ["run_tree_list", "match-on-node-kind"], "no match on the node kind", b.where(0)):
         bi, leaf, parent = arms[0]
